@@ -581,7 +581,7 @@ pub fn run_c14(ctx: &Ctx, st: &mut Local) {
                 continue;
             }
             ctx.begin(name, i, 600_000);
-            let mut ex = Explorer { s, inp: &inp, bodies: bodies.clone(), expected, bound, private_copies: private, executions: 0, points_total: 0, failures: Vec::new(), max_exec: if ctx.quick() { 6_000 } else { 200_000 }, capped: false };
+            let mut ex = Explorer { s, inp: &inp, bodies: bodies.clone(), expected, bound, private_copies: private, executions: 0, points_total: 0, failures: Vec::new(), max_exec: if ctx.quick() { 8_000 } else { 80_000 }, capped: false };
             ex.explore(vec![]);
             ctx.end();
             let e = st.eng(name);
